@@ -85,13 +85,13 @@ def monitor(ctx, spec, M, kind, T, seed, safe, rows, where):
                 break
 
 
-def safe_complement(ctx, spec, T, seed):
+def safe_complement(ctx, spec, T, seed, kind="ssa"):
     """safe mode: no reaction fires without its full complement of reactants.  Counting products make
     firings visible; on a dense grid an interval with exactly one firing shows the pre-firing state."""
     s2 = with_counters(spec)
     M = build_model(s2)
     dt = float(T[1] - T[0])
-    r = simcorr.run_real(M, "ssa", T, seed, dt, safe=True)
+    r = simcorr.run_real(M, kind, T, seed, dt, safe=True, vol0=1.5)
     sl = M.get_species_list()
     rows = r["rows"]
     cnt = [sl.index("Cnt%d" % j) for j in range(len(spec["reactions"]))]
@@ -109,8 +109,8 @@ def safe_complement(ctx, spec, T, seed):
             for s, n in need.items():
                 if prev[sl.index(s)] < n:
                     sig = "safe-complement/catalyst" if (rx["products"].count(s) >= rx["reactants"].count(s)) else "safe-complement/consumed"
-                    ctx.violation(sig, "safe mode: reaction %d fired with %g copies of %s, needs %d" % (j, prev[sl.index(s)], s, n),
-                                  {"spec": s2, "grid": [float(t) for t in T], "seed": seed, "row": i, "reaction": j,
+                    ctx.violation(sig, "safe mode (%s): reaction %d fired with %g copies of %s, needs %d" % (kind, j, prev[sl.index(s)], s, n),
+                                  {"spec": s2, "grid": [float(t) for t in T], "seed": seed, "row": i, "reaction": j, "kind": kind,
                                    "state_before": dict(zip(sl, prev.tolist()))})
                     return
         prev = rows[i]
@@ -154,6 +154,29 @@ def add_delays(rng, spec):
     return s2
 
 
+def complement_family(ctx):
+    """every way a species can be listed m times among the reactants and handed back `ret` times among the products
+    (consumed, partly returned, pure catalyst), with a rate that does not vanish at low counts, from every starting count
+    around m, in the four simulators: the reaction never fires with fewer than m copies present."""
+    Td = np.linspace(0, 2.0, 401)
+    for m in (1, 2, 3):
+        for ret in range(0, m + 1):
+            for other in ([], ["B"]):
+                for a0 in range(0, m + 2):
+                    spec = {"species": ["A", "B", "C"],
+                            "reactions": [{"reactants": ["A"] * m + other, "products": ["A"] * ret + ["C"], "prop": {"type": "general", "rate": "k0"}}],
+                            "params": {"k0": 4.0}, "ic": {"A": a0, "B": 3, "C": 0}, "needs_safe": True}
+                    for kind in ("ssa", "volume", "delay", "delayvolume"):
+                        ctx.begin_case({"spec": spec, "kind": kind, "family": "complement", "m": m, "returned": ret})
+                        before = len(ctx.violations)
+                        safe_complement(ctx, spec, Td, 7 + a0, kind=kind)
+                        ctx.evaluated()
+                        if len(ctx.violations) > before:
+                            return
+                    ctx.nontriv(("complement", m, ret, bool(other), a0 >= m))
+    ctx.count("complement_family_cases", 3 * 4)
+
+
 def run(ctx):
     rng = ctx.rng
     nnet, nseeds = (24, 3) if ctx.quick() else (300, 12)
@@ -171,6 +194,7 @@ def run(ctx):
         if i % 2 == 0:
             Td = np.linspace(0, 2.0, 401)
             safe_complement(ctx, spec, Td, seeds[0])
+    complement_family(ctx)
 
 
 def replay(ctx, obj):
@@ -181,7 +205,7 @@ def replay(ctx, obj):
         n = len(spec["reactions"])
         spec["species"] = [s for s in spec["species"] if not s.startswith("Cnt")]
         spec["reactions"] = [dict(r, products=[p for p in r["products"] if not p.startswith("Cnt")]) for r in spec["reactions"]]
-        safe_complement(ctx, spec, np.array(rep["grid"]), rep["seed"])
+        safe_complement(ctx, spec, np.array(rep["grid"]), rep["seed"], kind=rep.get("kind", "ssa"))
     else:
         one(ctx, rep["spec"], rep.get("kind", "ssa"), np.array(rep["grid"]), [rep["seed"]], rep.get("safe", False))
 
